@@ -366,6 +366,33 @@ func c17R2(c *Ctx, g *gossipAnchors, fn *ssa.Function, ws []gWrite) {
 		}
 	})
 	if lookup == nil {
+		// leave-style writer: publishes the leave marker; it may return without writing only when already left
+		isLeave := false
+		var stores []ssa.Instruction
+		for _, w := range ws {
+			if w.kind == "entries-update" && g.isLocalState(w.root) {
+				stores = append(stores, w.instr)
+				if s, ok := constString(w.key); ok && s == g.leftKey {
+					isLeave = true
+				}
+			}
+		}
+		if !isLeave {
+			return
+		}
+		fs := computeFacts(fn)
+		for _, r := range returnsOf(fn) {
+			if !blockReachesAvoiding(fn.Blocks[0], r, stores) {
+				continue
+			}
+			facts := fs.At(r.Block())
+			already := anyFact(facts, func(f Fact) bool {
+				b, ok := loadedField(f.V, g.leftF)
+				return ok && f.T && g.isLocalState(metaRoot(b, g))
+			})
+			c.check(already, "C17.R2", fnName(fn)+"/noop-return[leave]", r.Pos(), "returns without publishing the marker only when the node already left",
+				"the leave can be dropped although the node has not left yet (guard missing or inverted): the departure is never published; facts "+factStrings(facts))
+		}
 		return
 	}
 	var existing, okv ssa.Value
